@@ -108,6 +108,19 @@ def run(prop, tier_, cfg, sample=None, jobs=12):
             idx2.append((c["tree"], "kernel", [c]))
         collect(idx2, run_pv(pv2, jobs=1, tag=prop + "r"), per_case)
     evaluate(per_case, trees, v, stats, samples)
+    # action-level conformance: a sample of the same cases, traced on the emulated backend, must be
+    # behaviours of Lookup.tla (every real relevant syscall = the model's next action)
+    from lib.project import lookup_conformance
+    rc_cases = [c for c in cases if c["op"]["op"] == "resolve" and not c["op"]["nosym"]]
+    rnd.shuffle(rc_cases)
+    tcases = [dict(id="conf|%d" % i, tree=[node_to_pv(n) for n in trees[c["tree"]]["nodes"]], feat={"openat2": False}, trace=True, raw=False,
+                   calls=[dict(op="resolve", path=join_path(c["path"]), nofollow=bool(c["op"]["nofollow"]))]) for i, c in enumerate(rc_cases[:300 if sample else 3000])]
+    tres = run_pv(tcases, jobs=jobs, tag=prop + "c")
+    conf = lookup_conformance(tcases, tres)
+    stats["conf_validated"], stats["conf_accepted"], stats["conf_drift"] = conf["validated"], conf["accepted"], len(conf["drift"])
+    stats["conf_samples"] = conf["drift"][:3]
+    for d in conf["drift"][:5]:
+        print("MODEL-DRIFT (not an alarm): real trace of %s is not a behaviour of Lookup.tla; first unmatched event #%s/%s: %s" % (d.get("call"), d.get("at_event"), d.get("of"), json.dumps(d.get("first_unmatched"))[:200]))
     return finish(prop, v, tlc, cfg, sample, stats, samples, model_violation, build_s, t0)
 
 
@@ -193,6 +206,7 @@ def finish(prop, v, tlc, cfg, sample, stats, samples, model_violation, build_s, 
                model_invariant_violated=model_violation,
                oracle_vs_kernel_mismatch=stats["oracle_vs_kernel_mismatch"], budget_skipped=stats["budget_skipped"],
                inconclusive_eagain=stats["inconclusive_eagain"], eagain_reruns=stats["eagain_reruns"],
+               lookup_model_conformance=dict(validated=stats["conf_validated"], accepted=stats["conf_accepted"], drift=stats["conf_drift"], drift_samples=stats.get("conf_samples", [])),
                agree_kernel=stats["agree_kernel"], agree_emulated=stats["agree_emulated"], build_s=round(build_s, 1),
                notes=v.notes[:10])
     return v, cov, wall
